@@ -18,6 +18,15 @@ CHECKS = {
             "is checked by the 3-way correspondence on every run, not yet proved in Coq. No axioms.",
             "Rocq/Coq proof (parametric in the matcher) + 3-way differential correspondence (code / model / git-style reference)",
             "DESIGN.md section 6 C03"),
+    "C11": (True,
+            "Coq proofs, for an arbitrary glob matcher: GlobsetFilterer::check_event equals the property's rule written as a boolean formula; "
+            "no-path events and whitelisted files pass; an ignore match overrides any filter; the empty configuration passes everything; inserting "
+            "a non-negated ignore pattern at any position never turns a rejection into a pass; the CLI layer rejects exactly the disallowed fs-event "
+            "kinds (normalisation table translated from the source, total over EventKind). Model and formula are both run against the real "
+            "GlobsetFilterer on generated configurations and events.",
+            "Trusted: Coq kernel, translator, harness; globset/ignore semantics and Path::extension transcribed and sampled. No axioms.",
+            "Rocq/Coq proof (parametric in the matcher) + differential correspondence (code / model / formula)",
+            "DESIGN.md section 6 C11"),
     "C16": (True,
             "Coq proofs: Debug-name table round trip over the source-translated fs-kind family (all 41 kinds), Tag->SerdeTag->Tag identity "
             "over the full integer ranges, SerdeTag<->JSON-tree and whole-event round trips (any tags, any sorted metadata map), "
